@@ -686,3 +686,29 @@ for _how, _id in (('KWCALL', 'in-module-calls-by-keyword-tree'), ('DOCSTRIP', 'd
                   ('TUPJOIN', 'assignments-joined-into-tuples-tree'), ('ANDSPLIT', 'conjunctions-as-nested-ifs-tree')):
     for _p in ['C11', 'C12', 'C01', 'C02', 'C04', 'C05', 'C06', 'C07', 'C08', 'C09', 'C10', 'C13', 'C14', 'C15', 'C16', 'C18', 'C19', 'C20']:
         MUTANTS.append({'prop': _p, 'id': _id, 'kind': 'T', 'edits': _how})
+
+# ------------------------------------------------------------------ round 8: the rules added for its pairs (the corpus replay covers the rest)
+K('C14', 'radd-zero-returns-self', [(F, "    def __radd__(self, other):\n", "    def __radd__(self, other):\n        if type(other) is int and other == 0:\n            return self\n")], 'operators-allocate')
+T('C14', 'radd-zero-returns-a-copy', [(F, "    def __radd__(self, other):\n", "    def __radd__(self, other):\n        if type(other) is int and other == 0:\n            return self.copy()\n")])
+K('C15', 'datavector-buffered-scatter', [(DS, "        bins = [range(n+1) for n in self.domain.shape]\n        ans = np.histogramdd(self.df.values, bins, weights=self.weights)[0]\n",
+                                          "        cells = tuple(self.df.values.astype(int).T)\n        ans = np.zeros(self.domain.shape)\n        ans[cells] += 1.0 if self.weights is None else self.weights\n")], 'histogram')
+T('C15', 'datavector-scatter-add', [(DS, "        bins = [range(n+1) for n in self.domain.shape]\n        ans = np.histogramdd(self.df.values, bins, weights=self.weights)[0]\n",
+                                     "        cells = tuple(self.df.values.astype(int).T)\n        ans = np.zeros(self.domain.shape)\n        np.add.at(ans, cells, 1.0 if self.weights is None else self.weights)\n")])
+K('C02', 'datavector-normalised-in-place-on-a-bare-reduce', [(GM, "        logp = sum(self.potentials[cl] for cl in self.cliques)\n        ans = np.exp(logp - logp.logsumexp())\n",
+                                                             "        logp = reduce(lambda x,y: x+y, [self.potentials[cl] for cl in self.cliques])\n        logp += -logp.logsumexp()\n        ans = logp.exp(out=logp)\n")], 'queries-pure')
+T('C02', 'datavector-normalised-in-place-on-a-sum', [(GM, "        logp = sum(self.potentials[cl] for cl in self.cliques)\n        ans = np.exp(logp - logp.logsumexp())\n",
+                                                      "        logp = reduce(lambda x,y: x+y, [self.potentials[cl] for cl in self.cliques], 0)\n        logp += -logp.logsumexp()\n        ans = logp.exp(out=logp)\n")])
+K('C11', 'sample-mode-sorted-multinomial', [(GM, "                return np.random.choice(counts.size, total, True, probas)",
+                                             "                return np.repeat(np.arange(counts.size), np.random.multinomial(total, counts / counts.sum()))")], 'count-conservation')
+T('C11', 'sample-mode-permuted-multinomial', [(GM, "                return np.random.choice(counts.size, total, True, probas)",
+                                               "                return np.random.permutation(np.repeat(np.arange(counts.size), np.random.multinomial(total, counts / counts.sum())))")])
+K('C18', 'local-callback-stored-conditionally', [(LI, "        options['callback'] = callback\n        if callback is None and self.log:\n            options['callback'] = callbacks.Logger(self)\n",
+                                                  "        if callback is None and self.log:\n            callback = callbacks.Logger(self)\n        if callback is not None:\n            options['callback'] = callback\n")], 'per-call-options')
+K('C12', 'model-graph-from-consecutive-pairs', [(JT, "        for cl in self.cliques:\n            G.add_edges_from(itertools.combinations(cl, 2))\n",
+                                                 "        G.add_edges_from(e for cl in self.cliques for e in itertools.pairwise(cl))\n")], 'graph-from-cliques')
+T('C12', 'model-graph-in-one-call', [(JT, "        for cl in self.cliques:\n            G.add_edges_from(itertools.combinations(cl, 2))\n",
+                                      "        G.add_edges_from(e for cl in self.cliques for e in itertools.combinations(cl, 2))\n")])
+K('C08', 'mle-on-arrays-without-the-floor', [(GM, "            potentials[cl] = marginals[cl].log() - marginals[cl].project(new).log()",
+                                              "            mu = marginals[cl]\n            sep = mu.project(new).expand(mu.domain)\n            potentials[cl] = type(mu)(mu.domain, np.log(mu.values) - np.log(sep.values))")], 'mle-form')
+T('C08', 'mle-on-arrays-with-the-floor', [(GM, "            potentials[cl] = marginals[cl].log() - marginals[cl].project(new).log()",
+                                           "            mu = marginals[cl]\n            sep = mu.project(new).expand(mu.domain)\n            potentials[cl] = type(mu)(mu.domain, np.log(mu.values + 1e-100) - np.log(sep.values + 1e-100))")])
